@@ -18,7 +18,11 @@ Int_ == [type |-> <<"integer">>]
 \* "sizedint": an integer with bounds 1..40 generated with --min-sized-ints (uint8): the sized path must keep the
 \* pointer of a nullable integer
 Kinds == {"string", "integer", "number", "boolean", "arrint", "obj",
-          "strdate", "strtime", "strdt", "stripv4", "stripv6", "intdt", "numdate", "booltime", "sizedint"}
+          "strdate", "strtime", "strdt", "stripv4", "stripv6", "intdt", "numdate", "booltime", "sizedint",
+          "arrmin", "strmin"}
+\* "arrmin" / "strmin": an array with minItems 1 / a string with minLength 1 and a pattern: the validators of a struct
+\* field sit behind the typed decode, and a nullable field's null must pass them (nil guards)
+FieldOnly == {"sizedint", "arrmin", "strmin"}
 FieldCtx == {"req", "opt", "nested"}       \* positions that are struct fields (value validators apply)
 AddlKinds == {"string", "integer", "number", "boolean"}
 \* "map": value of a property-less object with typed additionalProperties (a Go map); "maparr": element of an array
@@ -41,6 +45,8 @@ LeafOf(k) ==
     [] k = "numdate" -> [type |-> <<"number">>, format |-> "date"]
     [] k = "booltime" -> [type |-> <<"boolean">>, format |-> "time"]
     [] k = "sizedint" -> ("type" :> <<"integer">>) @@ ("minimum" :> JNum(4)) @@ ("maximum" :> JNum(160))
+    [] k = "arrmin"  -> [type |-> <<"array">>, items |-> Int_, minItems |-> 1]
+    [] k = "strmin"  -> [type |-> <<"string">>, minLength |-> 1, pattern |-> "p_a"]
 
 Values == << JNull, JBool(TRUE), JBool(FALSE), JNum(0), JNum(4), JNum(2), JNum(-12),
              JStr(<<>>), JStr(<<"a">>), JFmt("date"), JFmt("time"), JFmt("date-time"), JFmt("ipv4"), JFmt("ipv6"),
@@ -48,8 +54,8 @@ Values == << JNull, JBool(TRUE), JBool(FALSE), JNum(0), JNum(4), JNum(2), JNum(-
              JObj(<<>>), JObj(<<KV("k", JNum(0))>>), JObj(<<KV("k", JStr(<<"a">>))>>) >>
 
 Wrap(x) == JObj(<<KV("x", x)>>)
-Valid0(k) == CASE k \in {"string"} -> JStr(<<"a">>) [] k \in {"integer", "number", "intdt", "numdate", "sizedint"} -> JNum(4)
-               [] k \in {"boolean", "booltime"} -> JBool(TRUE) [] k = "arrint" -> JArr(<<JNum(0)>>)
+Valid0(k) == CASE k \in {"string", "strmin"} -> JStr(<<"a">>) [] k \in {"integer", "number", "intdt", "numdate", "sizedint"} -> JNum(4)
+               [] k \in {"boolean", "booltime"} -> JBool(TRUE) [] k \in {"arrint", "arrmin"} -> JArr(<<JNum(0)>>)
                [] k = "obj" -> JObj(<<KV("k", JNum(0))>>)
                [] k = "strdate" -> JFmt("date") [] k = "strtime" -> JFmt("time") [] k = "strdt" -> JFmt("date-time")
                [] k = "stripv4" -> JFmt("ipv4") [] k = "stripv6" -> JFmt("ipv6")
@@ -103,7 +109,9 @@ ImplAccepts(unit, d, D) ==
        IF v.t = "null" THEN TRUE
        ELSE IF unit.kind = "integer" /\ "AddlIntTruncates" \in D THEN v.t = "num"
        ELSE ImplValue(<<>>, leaf, v, D)
-  ELSE ImplValue(<<>>, leaf, v, D) /\ (unit.kind = "sizedint" => LeafOK(leaf, v, D))      \* numericValidator of the field
+  ELSE /\ ImplValue(<<>>, leaf, v, D)
+       /\ (unit.kind \in {"sizedint", "strmin"} => LeafOK(leaf, v, D))      \* numericValidator / stringValidator of the field
+       /\ (unit.kind = "arrmin" => (v.t # "arr" \/ Len(v.a) >= 1))          \* arrayValidator behind its nil guard
 
 RefVerdict(unit, d)    == Valid(unit.defs, unit.schema, d, {}, "decl", NoLim)
 DevVerdict(unit, d, D) == Valid(unit.defs, unit.schema, d, D, "decl", NoLim)
@@ -118,7 +126,7 @@ AsIsOK   == Set => LET unit == u IN Agree(unit, Devs)
 
 Init == ctx \in Contexts /\ nul \in BOOLEAN /\ kind = "?"
 Pick == /\ kind = "?"
-        /\ kind' \in (IF ctx = "addl" THEN AddlKinds ELSE IF ctx \in FieldCtx THEN Kinds ELSE Kinds \ {"sizedint"})
+        /\ kind' \in (IF ctx = "addl" THEN AddlKinds ELSE IF ctx \in FieldCtx THEN Kinds ELSE Kinds \ FieldOnly)
         /\ (ctx = "addl" => ~nul)
         /\ UNCHANGED <<ctx, nul>>
 Next == Pick
